@@ -30,6 +30,7 @@ type c11Case struct {
 	Entry   string        `json:"entry,omitempty"`   // "" = md, "root" = From-Root with WithMassive
 	NilCtx  bool          `json:"nilCtx,omitempty"`  // WithMassive(nil): documented to mean context.Background()
 	Inodes  int           `json:"inodes,omitempty"`  // mkdir: the target file system has room for Inodes-1 entries (ENOSPC beyond)
+	OneCPU  bool          `json:"oneCPU,omitempty"`  // with SingleP: the worker process is confined to one CPU (taskset), so runtime.NumCPU() is 1 too
 	SingleP bool          `json:"singleP,omitempty"` // the worker process was started with GOMAXPROCS=1 ("every schedule" includes a one-CPU machine)
 }
 
@@ -62,6 +63,8 @@ func c11Check(c c11Case) string {
 	mode := "plain"
 	if c.Race {
 		mode = "race"
+	} else if c.SingleP && c.OneCPU {
+		mode = "onecpu"
 	} else if c.SingleP {
 		mode = "single"
 	}
@@ -184,7 +187,7 @@ func c11Record(col *collector, c c11Case) {
 	cl = append(cl, fmt.Sprintf("gomaxprocs:%d", c.Sched.GOMAXPROCS))
 	inside := c.Cancel.Kind == "atOffset" && c.Cancel.K > 0 && c.Cancel.K < len(c.Doc)
 	nontrivial := c.Failing >= 3 || inside || c.Faults.ReaderFailAt >= 1 || c.Faults.WriterFailAt >= 1 || c.Faults.CallbackFailAt >= 1 || c.Cancel.Kind == "atWrite" || c.Cancel.Kind == "atCallback" || c.Cancel.Kind == "afterDelay"
-	col.eval(nontrivial, hash64(string(c.Doc), fmt.Sprint(c.Op, c.Exts, c.Strict, c.Pre, c.Faults, c.Cancel, c.Sched, c.Race, c.Entry, c.NilCtx, c.SingleP, c.Inodes)), cl...)
+	col.eval(nontrivial, hash64(string(c.Doc), fmt.Sprint(c.Op, c.Exts, c.Strict, c.Pre, c.Faults, c.Cancel, c.Sched, c.Race, c.Entry, c.NilCtx, c.SingleP, c.OneCPU, c.Inodes)), cl...)
 	col.sample(func() any {
 		return map[string]any{"doc": truncate(string(c.Doc), 200), "op": c.Op, "faults": c.Faults, "cancel": c.Cancel, "sched": c.Sched, "race": c.Race}
 	})
@@ -299,6 +302,7 @@ func c11Gen(race bool) *rapid.Generator[c11Case] {
 		}
 		c.SingleP = !race && rapid.IntRange(0, 7).Draw(t, "singleP") == 0
 		c.Sched = genSched(t)
+		c.OneCPU = c.SingleP && rapid.Bool().Draw(t, "oneCPU")
 		if c.SingleP {
 			c.Sched.GOMAXPROCS = 0 // keep the single P the process started with
 		}
